@@ -116,6 +116,8 @@ func runSlot(c *ctx) error {
 			if err := s.Restart(); err != nil {
 				return err
 			}
+			// later, still before the rotation: the stored reports are older than the acceptance range now
+			s.Tick(t0 + 600)
 			if err := s.Restart(); err != nil {
 				return err
 			}
